@@ -16,6 +16,10 @@ Sub-checks (names usable with --only):
                  in the quick tier all of these already occur in small/ext2)
           observers: applies() once per strategy, class test on the eight images, find_strategies
           in two input orders.
+  blocks: size-dependent shape helpers: N_S + {e} with ONE long block-structured extension e, |e| <= 12:
+          e = x or 1 (+) x, x a sum / skew sum (both bracketings) of at most 2 (thorough: 3) monotone
+          runs of length 1..10; quick: identity image; thorough: every symmetric image for <= 2 runs,
+          identity image for 3 runs.  Observer: find_strategies(b, False) against the reference.
   slow  : the slow strategy.  find_strategies(b, True) == fast report + slow verdict,
           find_strategies(b, False) == find_strategies(b, True) minus the slow strategies, the slow
           verdict == PinWords.has_finite_simples(b) (the class test), FinitelyManySimplesStrategy(b)
@@ -168,6 +172,54 @@ def check_fast(part, basis, nvar, twice=True, objs=None):
         part.violation("applies", case, {"AssertionError_in": sorted(set(known))}, sig=SIG)
     vals = [v for v in exp.values() if v != F.UNDEF]
     return (True in vals) and (False in vals)
+
+
+def check_report(part, basis):
+    """One observer only (cheap enough for long patterns): find_strategies(b, False) against the
+    reference report of all nine fast strategies."""
+    Perm, _, find, _, _ = _lib()
+    case = {"basis": basis, "kind": "report"}
+    exp = F.expected(basis)
+    has1 = (0,) in basis
+    B = [Perm(p) for p in basis]
+    r = _call(lambda: _names(find(list(B), False)))
+    if r[0] == "exc":
+        if r[1] == "AssertionError" and has1:
+            part.violation("report", case, {"AssertionError_in": "find_strategies"}, sig=SIG)
+        else:
+            part.violation("report", case, {"raised": r})
+    else:
+        names = r[1]
+        part.outcomes.add(tuple(sorted(names)))
+        bad = [n for n in names if n not in F.FAST]
+        wrong = [n for n in F.FAST if exp[n] != F.UNDEF and (n in names) != exp[n]]
+        if bad or wrong:
+            part.violation("report", case, {"reported": names, "not_fast": bad,
+                                            "wrong_membership": wrong,
+                                            "expected": sorted(n for n in F.FAST if exp[n] is True)})
+    vals = [v for v in exp.values() if v != F.UNDEF]
+    return (True in vals) and (False in vals)
+
+
+def block_perms(maxblocks, maxlen, maxblock):
+    """Block-structured permutations: sums / skew sums (both bracketings) of at most `maxblocks`
+    monotone runs (increasing or decreasing, each of length 1..maxblock), total length <= maxlen,
+    and the same with a new minimum put in front (1 (+) x), still of length <= maxlen."""
+    blocks = [tuple(range(n)) for n in range(1, maxblock + 1)] + \
+             [tuple(range(n - 1, -1, -1)) for n in range(2, maxblock + 1)]
+    out = {b for b in blocks if len(b) <= maxlen}
+    level = set(out)
+    for _ in range(maxblocks - 1):
+        nxt = set()
+        for t in level:
+            for b in blocks:
+                if len(t) + len(b) <= maxlen:
+                    nxt.update((R.direct_sum(t, b), R.skew_sum(t, b),
+                                R.direct_sum(b, t), R.skew_sum(b, t)))
+        out |= nxt
+        level = nxt
+    out |= {R.direct_sum((0,), x) for x in out if len(x) + 1 <= maxlen}
+    return sorted(out, key=lambda x: (len(x), x))
 
 
 def check_stale(part, prev_basis, prev_objs, then_basis):
@@ -336,10 +388,22 @@ def build_pools(quick):
                 for e in R.perms(n):
                     drop.append(canon(rest + (e,)))
     POOLS["drop"] = fresh(drop)
+    # long block-structured extensions (size-dependent shape helpers): N_S + {e}
+    two = block_perms(2, 12, 10)
+    blocks = []
+    for name in F.CORE:
+        for e in two:
+            b = canon(F.NEEDED[name] + (e,))
+            blocks.extend([b] if quick else images(b))
+    if not quick:
+        for name in F.CORE:
+            for e in block_perms(3, 12, 10):
+                blocks.append(canon(F.NEEDED[name] + (e,)))
+    POOLS["blocks"] = fresh(blocks)
     # slow pool: entries (basis, direct class test?, separate applies()?)
     reps = {R.sym_class_rep(b) for b in small}
     if quick:
-        slow = [(b, True, True) for b in small if len(b) <= 2]
+        slow = [(b, True, b in reps) for b in small if len(b) <= 2]
         slow += [(b, True, False) for b in small
                  if len(b) == 3 and b in reps and sum(1 for p in b if len(p) == 4) <= 1]
     else:
@@ -371,6 +435,20 @@ def shard_fast(shard):
         prev = (b, objs) if objs else None
         part.add(1, 1 if nt else 0)
         if nt:
+            part.sample({"pool": pool, "basis": b,
+                         "reference_report": sorted(k for k, v in F.expected(b).items() if v is True)},
+                        cap=1)
+    return part, time.process_time() - t0
+
+
+def shard_report(shard):
+    pool, lo, hi = shard
+    t0 = time.process_time()
+    part = Partial()
+    for b in POOLS[pool][lo:hi]:
+        nt = check_report(part, b)
+        part.add(1, 1 if nt else 0)
+        if nt and max(len(p) for p in b) >= 10:
             part.sample({"pool": pool, "basis": b,
                          "reference_report": sorted(k for k, v in F.expected(b).items() if v is True)},
                         cap=1)
@@ -429,17 +507,18 @@ def run(ctx, only=None):
     build_pools(quick)
     if want("small"):
         e0 = ctx.evals
-        res = ctx.pmap(shard_fast, _shards("small", 48, 4, True))
+        nvar = 3 if quick else 4
+        res = ctx.pmap(shard_fast, _shards("small", 48, nvar, True))
         ctx.bounds["small"] = ("all %d sets of <=3 patterns of length 1..4; 9 fast strategies x 2 calls + 1 call after the next basis, "
-                               "class test on 8 images, find_strategies(.,False) in 4 orders/containers"
-                               % len(POOLS["small"]))
+                               "class test on 8 images, find_strategies(.,False) in %d orders/containers"
+                               % (len(POOLS["small"]), nvar))
         ctx.section("small", bases=len(POOLS["small"]), evaluations=ctx.evals - e0,
                     nontrivial=ctx.nontrivial, cpu_s=round(sum(res), 1))
     if want("ext"):
         e0, n0 = ctx.evals, ctx.nontrivial
         shards = []
         for pool in ("ext1", "ext2", "drop"):
-            shards += _shards(pool, 64, 2, False)
+            shards += _shards(pool, 64, 1 if quick else 2, False)
         res = ctx.pmap(shard_fast, shards)
         ctx.bounds["ext"] = {
             "ext1": "8 core strategies: every symmetric image of required patterns + {e}, |e|<=%d: %d new bases"
@@ -449,11 +528,24 @@ def run(ctx, only=None):
             "drop": "required patterns minus one + {e}, |e|<=%d: %d new bases"
                     % (4 if quick else 5, len(POOLS["drop"])),
             "observers": "9 fast strategies' applies(), class test on 8 images, "
-                         "find_strategies(.,False) in 2 orders",
+                         "find_strategies(.,False) in %d order(s)" % (1 if quick else 2),
         }
         ctx.section("ext", bases=sum(len(POOLS[p]) for p in ("ext1", "ext2", "drop")),
                     evaluations=ctx.evals - e0, nontrivial=ctx.nontrivial - n0,
                     cpu_s=round(sum(res), 1))
+    if want("blocks"):
+        e0, n0 = ctx.evals, ctx.nontrivial
+        res = ctx.pmap(shard_report, _shards("blocks", 96))
+        ctx.bounds["blocks"] = (
+            "required patterns of each of the 8 core strategies + ONE block-structured extension e, "
+            "|e|<=12: e or 1(+)e' with e, e' a sum/skew sum of at most %s monotone runs of length 1..10 "
+            "%s: %d new bases; observer: find_strategies(., False) against the reference report"
+            % ("2" if quick else "3 (both bracketings)",
+               "(identity image)" if quick else
+               "(<=2 runs: every symmetric image of the basis; 3 runs: identity image)",
+               len(POOLS["blocks"])))
+        ctx.section("blocks", bases=len(POOLS["blocks"]), evaluations=ctx.evals - e0,
+                    nontrivial=ctx.nontrivial - n0, cpu_s=round(sum(res), 1))
     if want("slow"):
         e0, n0 = ctx.evals, ctx.nontrivial
         build_simples()
@@ -480,7 +572,7 @@ def run(ctx, only=None):
         ctx.bump("image_pairs_compared", pairs)
         ctx.bounds["slow"] = ("%d bases: %s" % (
             len(POOLS["slow"]),
-            "all of Bases(2,4) (class test + separate applies()) + one representative per symmetry "
+            "all of Bases(2,4) (class test; separate applies() on one representative per orbit) + one representative per symmetry "
             "orbit of the 3-element bases of Bases(3,4) with at most one pattern of length 4 (class test)"
             if quick else
             "all of Bases(3,4) (class test + separate applies() on one representative per orbit, the "
@@ -502,6 +594,8 @@ def replay(ctx, rec):
     part = Partial()
     if kind == "fast":
         check_fast(part, basis, int(case.get("nvar", 4)), bool(case.get("twice", True)))
+    elif kind == "report":
+        check_report(part, basis)
     elif kind == "stale":
         objs = {}
         check_fast(Partial(), basis, 1, False, objs)
